@@ -172,6 +172,9 @@ Section WorldProofs.
     | l :: rest => snd (deliver_one now m l w) = None /\ all_ok now m rest (fst (deliver_one now m l w))
     end.
 
+  Lemma run_cons now m l rest w :
+    run now m (l :: rest) w = run now m rest (fst (deliver_one now m l w)).
+  Proof. reflexivity. Qed.
   Lemma run_app now m a b w : run now m (a ++ b) w = run now m b (run now m a w).
   Proof. apply fold_left_app. Qed.
 
@@ -224,7 +227,7 @@ Section WorldProofs.
   Lemma run_frame now m ls w :
     w_listeners (run now m ls w) = w_listeners w /\ w_fuel (run now m ls w) = w_fuel w.
   Proof.
-    revert w. induction ls as [|l rest IH]; intros w; cbn; [auto|].
+    revert w. induction ls as [|l rest IH]; intros w; [cbn; auto|]. rewrite run_cons.
     destruct (IH (fst (deliver_one now m l w))) as [-> ->]. apply deliver_one_frame.
   Qed.
 
@@ -237,9 +240,9 @@ Section WorldProofs.
   Lemma run_log now m ls w id :
     log (run now m ls w) id = log w id ++ repeat m (count (is_rec id) ls).
   Proof.
-    revert w. induction ls as [|l rest IH]; intros w; cbn [run fold_left].
+    revert w. induction ls as [|l rest IH]; intros w.
     - cbn. now rewrite app_nil_r.
-    - change (fold_left _ rest ?x) with (run now m rest x). rewrite IH, deliver_one_log.
+    - rewrite run_cons, IH, deliver_one_log.
       unfold count. cbn [filter]. destruct (is_rec id l); cbn.
       + now rewrite <- app_assoc.
       + now rewrite app_nil_r.
@@ -248,9 +251,9 @@ Section WorldProofs.
   Lemma run_calls now m ls w id :
     calls (run now m ls w) id = calls w id ++ concat (repeat (forwarded m) (count (is_callable id) ls)).
   Proof.
-    revert w. induction ls as [|l rest IH]; intros w; cbn [run fold_left].
+    revert w. induction ls as [|l rest IH]; intros w.
     - cbn. now rewrite app_nil_r.
-    - change (fold_left _ rest ?x) with (run now m rest x). rewrite IH, deliver_one_calls.
+    - rewrite run_cons, IH, deliver_one_calls.
       unfold count. cbn [filter]. destruct (is_callable id l); cbn.
       + now rewrite <- app_assoc.
       + now rewrite app_nil_r.
@@ -260,9 +263,9 @@ Section WorldProofs.
     bound (run now m ls w) id =
     option_map (queue_all (concat (repeat (forwarded m) (count (is_interp id) ls)))) (bound w id).
   Proof.
-    revert w. induction ls as [|l rest IH]; intros w; cbn [run fold_left].
+    revert w. induction ls as [|l rest IH]; intros w.
     - cbn. now destruct (bound w id).
-    - change (fold_left _ rest ?x) with (run now m rest x). rewrite IH, deliver_one_bound.
+    - rewrite run_cons, IH, deliver_one_bound.
       unfold count. cbn [filter]. destruct (is_interp id l); cbn; [|reflexivity].
       destruct (bound w id) as [bi|]; cbn; [|reflexivity].
       unfold queue_all. now rewrite fold_left_app.
